@@ -1687,6 +1687,11 @@ def register(eng):
         m.entries[i][1] = True
         return b_not(was)
 
+    @model("HashMap::clear", "BTreeMap::clear", "HashSet::clear", "BTreeSet::clear")
+    def _(eng, a, c):
+        deref(a[0]).entries.clear()
+        return unit()
+
     @model("HashMap::remove", "BTreeMap::remove")
     def _(eng, a, c):
         m = deref(a[0])
